@@ -102,6 +102,7 @@ type Vector struct {
 	Settings []VSetting     `json:"settings"`
 	Steps    []Action       `json:"steps"`
 	Reps     int            `json:"reps"`
+	PodFault string         `json:"podFault"`
 }
 
 func ago(units int) metav1.Time {
@@ -329,6 +330,7 @@ func runVectors(a CLIArgs) int {
 				return 2
 			}
 			d.Emit(Event{Ev: "Materialize", Key: Key, Args: map[string]string{"_": "", "label": v.Label}})
+			d.C.PodFault = v.PodFault
 			for _, s := range v.Steps {
 				if s.Key == "" {
 					s.Key = Key
